@@ -311,7 +311,7 @@ def run(chk):
     maxlen = 3 if quick else 4
     for L in range(1, maxlen + 1):
         perms = list(itertools.permutations(ipool, L))
-        budget = {1: 10 ** 6, 2: 10 ** 6, 3: 500 if quick else 10 ** 6, 4: 3000}[L]
+        budget = {1: 10 ** 6, 2: 10 ** 6, 3: 500 if quick else 10 ** 6, 4: 12000}[L]
         if len(perms) > budget:
             perms = rnd.sample(perms, budget)
         cases += [(p, False) for p in perms]
@@ -321,12 +321,14 @@ def run(chk):
             perms = rnd.sample(perms, 120)
         cases += [(p, True) for p in perms]
     if not quick:
-        for _ in range(800):
+        for _ in range(4000):
             cases.append((tuple(rnd.sample(ipool, 5)), False))
+        for _ in range(1500):
+            cases.append((tuple(rnd.sample(ipool, 6)), False))
     if only in (None, "hist"):
         chk.add_results("merge_histories", pmap(case_history, cases, chunks=8))
     hw = [(p, False) for p in itertools.permutations(ipool[:8], 2)] + [(p, False) for p in rnd.sample(list(itertools.permutations(ipool, 3)), 60)]
     if only in (None, "hw"):
         chk.add_results("hardware_switch_count", pmap(case_hw, hw, chunks=8))
-    chk.bounds = dict(int_pool=ipool, float_pool=fpool, history_length=f"1..{maxlen} (+ sampled 5 in thorough)", widths=32)
+    chk.bounds = dict(int_pool=ipool, float_pool=fpool, history_length=f"1..{maxlen} (+ sampled 5 and 6 in thorough)", widths=32)
     chk.outside = ["kernels with more than 2 data inputs or more than 3 ops", "mixed-type histories", "float rounding (uninterpreted)"]
